@@ -167,7 +167,10 @@ def run_full(ctx, edmap):
     rng = ctx.rng
     thorough = ctx.tier == "thorough"
     docs = ["Shapiro v. Thompson, 394 U. S. 618", "Foo v. Bar, 1 Chase 5, 2 Cooke 7 (1999)", "See 1 Bee 1; id. at 3.",
-            "Gilmer v. Deady, 3 Holmes 4, 5 U.S. 6", "Kern v. Thompson, 12 (1850)", "Jones v. Cooke, 7.", "See Smith v. Chase, 3; Bee, 4 (1801)."]
+            "Gilmer v. Deady, 3 Holmes 4, 5 U.S. 6", "Kern v. Thompson, 12 (1850)", "Jones v. Cooke, 7.", "See Smith v. Chase, 3; Bee, 4 (1801).",
+            # characters a caller might think harmless at the edges: byte order marks, zero-width and control characters
+            "\ufeffSee Roe v. Wade, 410 U.S. 113 (1973). Id. at 120.", "\ufeff\ufeff1 U.S. 1", "1 U.S. 1\ufeff", "\u200bSee 1 U.S. 1\u200b",
+            "\x00See 1 U.S. 1\x00", "\ufeff"]
     for _ in range(40 if thorough else 8):
         # a nominative-reporter name used as a party name and NOT followed by a real citation (the match is kept)
         docs.append(f"{rng.choice(textgen.NAMES)} v. {rng.choice(textgen.NOMINATIVE)}, {rng.choice([3, 7, 12, 40])}"
